@@ -446,6 +446,12 @@ def rules(rep, m):
     from . import c20
     c20.threading_rules(rep, r10, m)
 
+    # R-C10-11 -----------------------------------------------------------
+    r11 = rep.rule("R-C10-11", "the list of chunk pointers of a pool grows with the pool: on every path through an expansion the "
+                   "slot written lies inside the (possibly just grown) list and the count stays below the stored length "
+                   "afterwards, so the 2nd, 3rd, ... growth happens too (shared with R-C20-5, engine LSE)", floor=1)
+    c20.chunk_list_bounds(rep, r11, m)
+
 
 def run(tier="quick"):
     models = common.load_models(tier)
